@@ -205,6 +205,7 @@ func C06(tier common.Tier) int {
 		}
 	}
 
+	c06TwoModules(run, root)
 	factValueSpace(run, thorough)
 	return run.Finish()
 }
